@@ -1,8 +1,14 @@
 mod daemon;
+mod build;
+mod evalseq;
+mod agentrun;
 mod fakecli;
+mod fakejunos;
+mod fakeirrd;
 mod frame;
 mod fuzz;
 mod hello;
+mod logs;
 mod memtransport;
 mod meta;
 mod reply;
@@ -47,9 +53,13 @@ fn main() {
         "fuzz" => fuzz::main(&opts),
         "meta" => meta::main(&opts),
         "sched" => sched::main(&opts),
+        "agentrun" => agentrun::main(&opts),
         "daemon" => daemon::main(&opts),
         "ser" => ser::main(&opts),
         "plan" => plan::main(&opts),
+        "build" => build::main(&opts),
+        "logs" => logs::main(&opts),
+        "evalseq" => evalseq::main(&opts),
         _ => {
             eprintln!("unknown op {op}");
             std::process::exit(2);
